@@ -594,7 +594,7 @@ func (envs *Manager) TeardownEnvironment(environmentId uid.ID, force bool) error
 
 	if !env.transitionMutex.TryLock() {
 		log.WithField("partition", environmentId.String()).
-			Warnf("environment teardown attempt delayed: transition '%s' in progress. waiting for completion or failure", env.currentTransition)
+			Warnf("environment teardown attempt delayed: transition '%s' in progress. waiting for completion or failure", env.CurrentTransition())
 		env.transitionMutex.Lock()
 		log.WithField("level", infologger.IL_Support).
 			WithField("partition", environmentId.String()).
